@@ -473,6 +473,19 @@ pub fn dispatch(m: &mut Machine, name: &str, args: &[&str]) -> Option<R> {
                 Ok("-".into())
             })
         })(),
+        // update_rep <slot> <chunk> <count>: the same chunk fed <count> times (long messages without a long buffer)
+        "update_rep" => (|| {
+            need(args, 3)?;
+            let s = arg_slot(args[0])?;
+            let d = arg_bytes(args[1])?;
+            let n = arg_usize(args[2])?;
+            with_hash(m, s, |h| {
+                for _ in 0..n {
+                    h.update_mut(&d);
+                }
+                Ok("-".into())
+            })
+        })(),
         "hclone" => (|| {
             need(args, 2)?;
             let s = arg_slot(args[0])?;
